@@ -459,9 +459,40 @@ fn nameless_redirection_errors(ctx: &Ctx) -> u64 {
     n
 }
 
+// (f) errexit while a signal trap action runs: the failing command of the action aborts the shell
+// with *its* status, nothing runs afterwards, the EXIT trap runs once
+fn errexit_in_trap_actions(ctx: &Ctx) -> u64 {
+    let mut n = 0;
+    for action in ["s 7", "s 7; p t2", "(s 7)", "s 0 | s 7", "f"] {
+        for (ctxname, body) in [("top", "kill -s USR1 $$"), ("function", "g() { kill -s USR1 $$; p g; }; g"), ("loop", "for i in 1 2; do kill -s USR1 $$; p l; done")] {
+            let script = format!("set -e\nf() {{ s 7; }}\ntrap 'p x' EXIT\ntrap '{action}' USR1\n{body}\np after\n");
+            let r = run_once(&Setup::script(&script), &Default::default());
+            n += 1;
+            let tr = r.all_trace();
+            let exits = tr.iter().filter(|t| t.starts_with("x:")).count();
+            let later: Vec<&String> = tr.iter().filter(|t| !t.starts_with("x:")).collect();
+            let problem = if r.panic.is_some() {
+                Some(("panic", format!("{:?}", r.panic)))
+            } else if !later.is_empty() {
+                Some(("errexit-in-trap-action-ran-on", format!("commands ran after the failing command of the trap action: {later:?}")))
+            } else if exits != 1 {
+                Some(("errexit-in-trap-action-exit-trap", format!("the EXIT trap ran {exits} times")))
+            } else if r.end != End::Exited(7) {
+                Some(("errexit-in-trap-action-status", format!("the shell ended {:?}, expected exit status 7 (that of the failing command)", r.end)))
+            } else {
+                None
+            };
+            if let Some((key, what)) = problem {
+                ctx.violation(&format!("c10:{key}"), &format!("trap action `{action}` under errexit, signal raised at {ctxname}: {what}; markers {tr:?}"), json!({"script": script}));
+            }
+        }
+    }
+    n
+}
+
 pub fn run(tier: Tier) -> i32 {
     let ctx = Ctx::new("C10", "exploration", tier);
-    let nameless = nameless_redirection_errors(&ctx);
+    let nameless = nameless_redirection_errors(&ctx) + errexit_in_trap_actions(&ctx);
     let dscripts = dominance_scripts();
     let d_runs = AtomicU64::new(0);
     let d_entered = AtomicU64::new(0);
